@@ -11,8 +11,13 @@
   Order independence and merging of duplicates are CollectFields facts (Props.C01.collect_nodup, addCollected_*;
   Props.C03.collect_*).  That the gRPC datasource's answer equals this projection of the service data for every
   generated formulation is validated per case, not proved.
+
+  The positional assembly of `_entities` from the calls of one request IS modelled (Misc.GrpcMerge, tied to entity.go /
+  json_builder.go by regenerated guard skeletons): `entities_one_item_per_representation`,
+  `entity_answers_its_representation`, `unanswered_representation_is_null`.
 -/
 import GqlVerif.Gql.Exec
+import GqlVerif.Proofs.C20Merge
 namespace GqlVerif.Props.C20
 open GqlVerif GqlVerif.Exec
 
@@ -89,5 +94,36 @@ theorem complete_list_shape (s : Schema) (u : Universe) (op : Op) (vars : List (
       · simp at h; exact Or.inl h.symm
     · simp at h; exact Or.inl h.symm
     · simp at h; exact Or.inl h.symm
+
+/-! ### `_entities`: one item per representation, each at the position of its representation -/
+
+/-- **entities_one_item_per_representation** (∀ representation lists, ∀ non-empty sequences of calls): the merged
+    `_entities` list has exactly one item per representation. -/
+theorem entities_one_item_per_representation (types : List String) (calls : List (String × List String)) (h : calls ≠ []) :
+    (GrpcMerge.mergeAll types calls).length = types.length :=
+  GrpcMerge.entities_one_item_per_representation types calls h
+
+/-- **entity_answers_its_representation** (∀ …, one call per entity type): result `k` of the call for entity type `t` is
+    the item at the position of the `k`-th representation of type `t` — whatever the other calls returned and in
+    whatever order the calls are merged. -/
+theorem entity_answers_its_representation (types : List String) (calls : List (String × List String))
+    (hnd : (calls.map (·.1)).Nodup) (c : String × List String) (hc : c ∈ calls) (k p : Nat) (r : String)
+    (hk : (GrpcMerge.indexMap c.1 types 0)[k]? = some p) (hr : c.2[k]? = some r) :
+    (GrpcMerge.mergeAll types calls)[p]? = some (some r) :=
+  GrpcMerge.entity_answers_its_representation types calls hnd c hc k p r hk hr
+
+/-- **unanswered_representation_is_null**: a representation whose type no call answers is null, also at the end of the
+    list (the defect repaired by d7127af). -/
+theorem unanswered_representation_is_null (types : List String) (calls : List (String × List String)) (hne : calls ≠ [])
+    (p : Nat) (hp : p < types.length) (hno : ∀ c ∈ calls, types[p]? ≠ some c.1) :
+    (GrpcMerge.mergeAll types calls)[p]? = some none :=
+  GrpcMerge.unanswered_representation_is_null types calls hne p hp hno
+
+/-- the index map of a type lists exactly the positions of its representations, in increasing order -/
+theorem index_map_exact (types : List String) (t : String) (p : Nat) :
+    p ∈ GrpcMerge.indexMap t types 0 ↔ types[p]? = some t := by
+  constructor
+  · intro h; have := (GrpcMerge.indexMap_mem t types 0 p h).2.2; simpa using this
+  · exact GrpcMerge.every_representation_has_a_position types t p
 
 end GqlVerif.Props.C20
